@@ -56,6 +56,13 @@ class AbsBuf:
     def truth(self, fr, node):
         return not B.decide_eq0(self.L, "buffer is empty")
 
+    def contains(self, fr, x, node):
+        """`x in buf` for one byte value: there is a first occurrence."""
+        needle = _one_byte(x)
+        if needle is None:
+            raise AnalysisError("engine B: membership test of %r in an abstract buffer" % (x,))
+        return fr.compare(ast.GtE(), FindResult(self, needle, Aff(0)).number(), 0, node)
+
     def _is_generic(self, k):
         r = B.prove_eq0(Aff.of(k) - self.idx)
         if r is None and not self.in_element_loop and not B.cur().closed:
